@@ -436,6 +436,8 @@ impl Check for C08 {
 
     fn replay(&self, case: &J, log: Option<&mut Vec<String>>) -> Result<Option<(String, String)>, String> {
         let d = unhex(case.str_of("deliver")?)?;
+        // a fixed history: a neutral delivery, then what the receive buffer held before
+        let _ = judge(&[0x80, 203, 0, 0]);
         if let Ok(prev) = case.str_of("previous").and_then(|h| unhex(h)) {
             if !prev.is_empty() {
                 let _ = judge(&prev);
